@@ -47,12 +47,11 @@ def runOps (s : Streams) (ops : List Op) : Streams := ops.foldl (fun s op => op.
 def runGhost (g : Ghost) (ops : List Op) : Ghost := ops.foldl (fun g op => op.ghost g) g
 
 /-- executable form of `Op.valid` / `Op.ok` -/
-def Op.validB (s : Streams) : Op → Bool
+def Op.validB (_s : Streams) : Op → Bool
   | .setTargetConnectionWindow t => decide (t ≤ 2147483647)
   | .applyLocalSettings vals => match settingsIws vals with
     | some t => decide (t ≤ 2147483647)
     | none => true
-  | .dropStreamRef k => decide (k < s.store.nextKey)
   | _ => true
 
 theorem Op.valid_of_validB {s : Streams} {op : Op} (h : op.validB s = true) : op.valid s := by
@@ -61,7 +60,6 @@ theorem Op.valid_of_validB {s : Streams} {op : Op} (h : op.validB s = true) : op
     intro t ht
     simp only [Op.validB, ht] at h
     simpa using h
-  · simpa [Op.validB] using h
   · simpa [Op.validB] using h
 
 def isOkB {ε : Type} : Except ε Unit → Bool
@@ -94,7 +92,7 @@ theorem reachOk_runOps {g : Ghost} {s : Streams} (h : ReachOk g s) (ops : List O
     simp only [allValidOk, Bool.and_eq_true] at hv
     exact ih (.step op h (Op.valid_of_validB hv.1.1) (Op.ok_of_okB hv.1.2)) hv.2
 
--- ===================================================================== FINDING
+-- ===================================================================== the pushed-stream history (F30)
 
 /-- a new client connection whose reset-stream queue is disabled (`max_concurrent_reset_streams(0)`;
     with the default queue the same happens when the entry expires) -/
@@ -120,19 +118,27 @@ def leakOps : List Op :=
 
 theorem leakStart_init : Init leakStart := ⟨rfl, rfl, rfl, rfl, rfl⟩
 
-/-- **FINDING** (`drop_stream_ref` only cancels the promised streams of the stream that goes away, it
-    does not `release_closed_capacity` them): the 10 octets received on the pushed stream are still
-    counted in the connection's `in_flight_data`, no stream accounts for them any more (the pushed
-    stream has left the store, the remaining entry holds nothing) and no handle exists that could
-    release them: the connection window stays 10 octets short of its target for ever.  The state is
-    reachable through valid, successful calls; the model did not panic. -/
-theorem leak_counterexample :
+/-- **The former finding, now the positive statement** (F30: `drop_stream_ref` used to only cancel the
+    promised streams of the stream that goes away; since the repair it also calls
+    `release_closed_capacity` on them).  On the history that used to leave the connection window 10
+    octets short for ever, the 10 octets received on the never-polled pushed stream are given back when
+    the last handle of the parent goes away: nothing is in flight, `available` is back at the target,
+    no stream holds anything, the pushed stream has left the store.  (Before the repair the same
+    history ended with `in_flight_data = 10`, `available = 65525`.) -/
+theorem pushed_stream_data_credited_back :
     ReachOk Ghost.init (runOps leakStart leakOps) ∧
-    cI (runOps leakStart leakOps) = 10 ∧ cA (runOps leakStart leakOps) = 65525 ∧
+    cI (runOps leakStart leakOps) = 0 ∧ cA (runOps leakStart leakOps) = 65535 ∧
     sumInfl (runOps leakStart leakOps).store.slab = 0 ∧
     (runOps leakStart leakOps).store.slab.map (fun x => (x.id, x.refCount, x.inFlightRecvData)) = [(1, 0, 0)] ∧
     (runOps leakStart leakOps).panicked = none := by
   refine ⟨reachOk_runOps (.init leakStart_init) leakOps (by decide +kernel), ?_⟩
+  decide +kernel
+
+/-- the octets were really in flight before the handles went away (the history is not trivial) -/
+theorem pushed_stream_data_in_flight :
+    cI (runOps leakStart (leakOps.take 6)) = 10 ∧ cA (runOps leakStart (leakOps.take 6)) = 65525 ∧
+    (runOps leakStart (leakOps.take 6)).store.slab.map (fun x => (x.id, x.refCount, x.inFlightRecvData)) =
+      [(1, 2, 0), (2, 0, 10)] := by
   decide +kernel
 
 end H2V.Lemmas.ConnRecvP
